@@ -6,4 +6,5 @@ export CARGO_NET_OFFLINE=true
 export RUSTFLAGS="--cfg hpbf_verif"
 mkdir -p evidence replays scratch
 (cd symx && cargo build --offline && cargo build --offline --release)
+(cd kani && cp /repo/Cargo.lock . && unset RUSTFLAGS && timeout 1200 cargo kani --exact --harness c14_cell::p8::mul_matches_primitive --output-format terse >/dev/null 2>&1 || true)
 echo setup ok
